@@ -6,7 +6,8 @@
    transactions, between any two requests - and drops all volatile state (in-flight items with
    their unflushed child batches, the span-hosts list in memory); the table, the hostnames table
    and (as ghost history) the request log survive.  The restart is [LRelease] (in_progress -> todo)
-   then [LAddStarts] (INSERT OR IGNORE of the start URLs, then the hostnames table is read).
+   then any number of [LAddBatch n] (INSERT OR IGNORE of the next n start URLs: the input is committed in batches and a
+   kill may fall between two of them), then [LAddStarts] (the start URLs are all in, the hostnames table is read).
    [reach] = reachable with any number of kills/restarts, any interleaving, any number of workers. *)
 From Coq Require Import List NArith Bool Arith.
 From Wpull Require Import Model.Engine Model.EngineSim Proofs.EngineProofs Proofs.EngineRun Proofs.EngineFinal
@@ -53,7 +54,7 @@ Theorem C03_resume_terminates_final :
     (forall u code links l, site u = Doc code links -> In l links -> In (fst l) U) ->
     (1 <= conc)%nat -> no_fail site maxredir ->
   forall s s1, reach site host in_scope maxredir starts conc s -> fire site host in_scope maxredir starts conc LCrash s = Some s1 ->
-    (forall n s2, nsteps_nc site host in_scope maxredir starts conc n s1 s2 -> (n <= mu maxredir U s1)%nat) /\
+    (forall n s2, nsteps_nc site host in_scope maxredir starts conc n s1 s2 -> (n <= mu maxredir starts U s1)%nat) /\
     (forall s2, steps site host in_scope maxredir starts conc s1 s2 -> quiescent site host in_scope maxredir starts conc s2 ->
        st_items s2 = [] /\ forall r, In r (st_tbl s2) -> is_final (r_status r) = true).
 Proof. exact resume_terminates_final. Qed.
@@ -101,6 +102,23 @@ Theorem C03_resume_same_span :
     forall h, In h (st_span s) <-> In h (sp0 host starts).
 Proof. exact resume_same_span. Qed.
 Print Assumptions C03_resume_same_span.
+
+(* Start-up is not atomic: InputURLTask commits the start URLs in batches and the process may be killed between
+   two of them ([LAddBatch n], any batch sizes).  Whenever the crawl proper runs - after any number of kills, at
+   any point of any start-up - every start URL has its row, and a level-0 row is always the row of a start URL. *)
+Theorem C03_start_urls_never_lost :
+  forall site host in_scope maxredir starts conc s,
+    reach site host in_scope maxredir starts conc s ->
+    (st_mode s = Running -> forall u, In u starts -> In (start_info u) (infos (st_tbl s))) /\
+    (forall i, In i (infos (st_tbl s)) -> ri_level i = 0 -> i = start_info (ri_url i) /\ In (ri_url i) starts).
+Proof. exact starts_never_lost. Qed.
+Print Assumptions C03_start_urls_never_lost.
+
+Example C03_batches_nonvacuous :
+  reach w2_site w2_host w2_scope 20 [1; 5; 6] 1 (get w4_killed) /\ reach w2_site w2_host w2_scope 20 [1; 5; 6] 1 (get w4_run) /\
+  st_mode (get w4_killed) = Down /\ urls (st_tbl (get w4_killed)) = [1; 5] /\
+  st_mode (get w4_run) = Running /\ urls (st_tbl (get w4_run)) = [1; 5; 6].
+Proof. exact c03_batches_nonvacuous. Qed.
 
 (* Non-vacuity: a two-worker crawl killed with one row in progress and one todo; the restarted
    crawl finishes all five rows with two more requests. *)
